@@ -232,6 +232,14 @@ def extra_cases(S, tier):
         decl = ("struct", "Msg", tuple(("f%d" % i, i, U(w), None, None) for i, w in enumerate(widths)))
         sig = tuple(("f%d" % i, (("mux_signal", "f%d" % (n - 1)), ("mux_count", 2))) for i in range(n - 1))
         cases.append(("mux-selector-last", sum(widths), [decl, ("impl", "can", "Msg", None, (("id", 2), ("device", "ecu")), sig)]))
+    # the selector FIRST and the multiplexed signals at the end of the message (every one after the selector, or only the
+    # last one): what lies beyond bit 64 is then multiplexed - each multiplexed signal still has a slot of its own
+    for widths in ((8, 32, 24), (8, 32, 32), (8, 56), (8, 57), (1, 64), (2, 31, 32), (8, 24, 24, 16), (4, 60), (4, 30, 30)):
+        n = len(widths)
+        decl = ("struct", "Msg", tuple(("f%d" % i, i, U(w), None, None) for i, w in enumerate(widths)))
+        for muxed in (tuple(range(1, n)), (n - 1,)):
+            sig = tuple(("f%d" % i, (("mux_signal", "f0"), ("mux_count", 2))) for i in muxed)
+            cases.append(("mux-selector-first", sum(widths), [decl, ("impl", "can", "Msg", None, (("id", 2), ("device", "ecu")), sig)]))
     for fields, big in (((U(4), U(16)), (1,)), ((U(4), U(16), U(8)), (1,)), ((U(32), U(16), U(12), U(4)), (3,)), ((U(3), U(12)), (1,)), ((U(8), U(12), U(4)), (1,)), ((U(1), U(32), U(31)), (1, 2))):
         decl = ("struct", "Msg", tuple(("f%d" % i, i, t, None, None) for i, t in enumerate(fields)))
         sig = tuple(("f%d" % i, (("endianess", "big"),)) for i in big)
